@@ -105,10 +105,11 @@ def okResponse(
         **kwargs: Any,
 ) -> memoryview:
     do_compress: bool = False
+    # Never write into the caller's dictionary, it may be
+    # reused for responses which do not get compressed.
+    headers = dict(headers) if headers else {}
     if compress and content and len(content) > min_compression_length:
         do_compress = True
-        if not headers:
-            headers = {}
         headers.update({
             b'Content-Encoding': b'gzip',
         })
